@@ -146,6 +146,8 @@ struct lyd_json_ctx {
 
     struct lyjson_ctx *jsonctx;         /**< JSON context */
     const struct lysc_node *any_schema; /**< parent anyxml/anydata schema node if parsing nested data tree */
+    struct ly_set ll_inst;              /**< leaf-list instances of the objects being parsed in the order of their arrays */
+    uint32_t ll_scope;                  /**< index of the first item in ll_inst of the object being parsed */
 };
 
 /**
